@@ -51,8 +51,10 @@ CLAIM = dict(
     "exactly that pattern). The per-object warp cache is modelled and tied in C10 (transf_cache_transparent, transfrun). "
     "scipy from_rotvec matrices, numpy fancy assignment and float rounding are tied by correspondence (1e-12 / exact on "
     "dyadic inputs / breakpoint-aware on true rotations), not proved; quarter turn in *voxel* mode is decided by float noise "
-    "of cos(pi/2) on rounding breakpoints (known finding, observed only); the Powell fit is out of scope (parameters set "
-    "directly, a few fitted maps sampled).",
+    "of cos(pi/2) on rounding breakpoints (known finding, observed only); the Powell search itself is out of scope; DarSIA's algebra around it (centre-of-mass "
+    "preconditioning, fold-back of the shift with scaling and rotation, start vector, objective) is modelled with the optimiser's "
+    "result as a parameter (fit_fold_back_correct, fit_fold_back_correct_3d, fit_objective_preserved, fit2_is_folded, "
+    "precondition_exact_for_translation) and tied with scipy.optimize.minimize replaced by a recorder.",
     technique="Lean 4 proof (ring identities by induction over the factor list; floor/trunc lemmas over Q) + G1 tabulation + "
     "differential correspondence + property oracle",
 )
@@ -357,6 +359,63 @@ def corr_warps(ctx, d, rnd_name):
     d2 = correspond_masked(ctx, "warp(float stream, breakpoint-aware)", lines, impl)
     return d1 + d2
 
+
+
+def corr_fit_fold(ctx, d):
+    """AffineTransformation.fit with scipy.optimize.minimize replaced by a recorder that returns GIVEN inner parameters: the start
+    vector, the objective at the start (on the shifted points), and the folded translation / scaling / rotation and the fitted
+    map on the original source points are compared with the model (preconditioning on/off, isometry on/off, 2-D and 3-D)."""
+    import types
+
+    import scipy.optimize as so
+
+    rng = ctx.rng
+    lines, vals = [], []
+    for i in range(ctx.pick(24, 240)):
+        dim = 2 + (i % 2)
+        pre, iso = bool((i // 2) % 2 == 0), bool((i // 4) % 2)
+        n = rng.randint(dim + 1, 6)
+        src = [[dy(rng, -6, 6, 4) for _ in range(dim)] for _ in range(n)]
+        dst = [[dy(rng, -6, 6, 4) for _ in range(dim)] for _ in range(n)]
+        tp = [dy(rng, -4, 4, 4) for _ in range(dim)]
+        sigma = Fr(1) if iso else Fr(rng.choice([1, 2, 3, 5]), rng.choice([1, 2, 4]))
+        ts = [rfrac(rng, lo=-2, hi=2) for _ in range(1 if dim == 2 else 3)]
+        flat = " ".join(fmt(x) for p in src for x in p) + " " + " ".join(fmt(x) for p in dst for x in p)
+        if dim == 2:
+            lines.append(f"fitfold {int(pre)} {fmt(tp[0])} {fmt(tp[1])} {fmt(sigma)} {fmt(ts[0])} {n} {flat}")
+        else:
+            lines.append(f"fitfold3 {int(pre)} {fmt(tp[0])} {fmt(tp[1])} {fmt(tp[2])} {fmt(sigma)} 3 "
+                         + " ".join(f"{k} 0 {fmt(a)}" for k, a in enumerate(ts)) + f" {n} {flat}")
+
+        def run():
+            T = d.AffineTransformation(dim)
+            rec = {}
+            xret = [float(x) for x in tp] + ([] if iso else [float(sigma)]) + [angle(a) for a in ts]
+
+            def fake(fun, x0, *a, **k):
+                rec["x0"] = np.array(x0, float).copy()
+                rec["f0"] = float(fun(np.array(x0, float)))
+                return types.SimpleNamespace(x=np.array(xret), success=True, fun=0.0)
+
+            orig = so.minimize
+            so.minimize = fake
+            try:
+                T.fit(d.make_coordinate(np.array([[float(x) for x in p] for p in src])),
+                      d.make_coordinate(np.array([[float(x) for x in p] for p in dst])),
+                      fit_options={"preconditioning": pre, "isometry": iso})
+            finally:
+                so.minimize = orig
+            ident = [0.0] * dim + ([] if iso else [1.0]) + [0.0] * len(ts)
+            if "x0" not in rec or not np.array_equal(rec["x0"], np.array(ident)):
+                raise ValueError("the search was not started from the identity parameters")
+            if abs(float(T.scaling) - float(sigma)) > 0:
+                raise ValueError("scaling of the fitted map is not the inner result")
+            mapped = np.asarray(T.call_array(np.array([[float(x) for x in p] for p in src])), float)
+            return list(np.asarray(T.translation, float).ravel()) + [rec["f0"]] + list(mapped.ravel())
+
+        vals.append(call(run))
+    return correspond_tol(ctx, "AffineTransformation.fit: start vector, start objective, fold-back of the preconditioning (optimiser replaced, 1e-11)",
+                          lines, vals, tol=1e-11)
 
 
 def corr_ctmeta(ctx, d):
@@ -896,6 +955,33 @@ def check_gp_case(ctx, d, case):
     return bad
 
 
+def check_fit_case(ctx, d, case):
+    """sampled: AffineTransformation.fit on an exact similarity ground truth dst = t + sigma R src (2-D, moderate angle) maps the
+    source points onto the destination points within the optimiser's tolerance"""
+    src = np.array(case["src"], float)
+    t, sigma, ang = np.array(case["t"], float), case["sigma"], case["angle"]
+    R = np.array([[math.cos(ang), -math.sin(ang)], [math.sin(ang), math.cos(ang)]])
+    dst = t + sigma * (src @ R.T)
+
+    def run():
+        T = d.AffineTransformation(2)
+        T.fit(d.make_coordinate(src), d.make_coordinate(dst), fit_options={"tol": 1e-12, "maxiter": 20000, "preconditioning": case["pre"]})
+        return np.asarray(T(d.make_coordinate(src)), float), np.asarray(T.inverse(d.make_coordinate(dst)), float)
+
+    r = call(run)
+    if isinstance(r, Raised):
+        return [("C09:AffineTransformation.fit:raises", f"{r}")]
+    scale = 1 + float(np.abs(dst).max())
+    e1, e2 = float(np.abs(r[0] - dst).max()), float(np.abs(r[1] - src).max())
+    if hasattr(ctx, "cov"):
+        ctx.cov["fit_exact_err_max"] = max(ctx.cov.get("fit_exact_err_max", 0.0), e1 / scale)
+    if e1 > 1e-3 * scale or e2 > 1e-3 * scale * max(1.0, 1 / sigma):
+        return [(f"C09:AffineTransformation.fit(preconditioning={case['pre']}):exact-similarity-not-reproduced",
+                 f"dst = t + {sigma:.3g} R({ang:.3g}) src with t = {t.tolist()}: fitted map misses the destination points by {e1:.3g} "
+                 f"(inverse misses the sources by {e2:.3g})")]
+    return []
+
+
 def report(ctx, bad, case):
     for sig, what in bad:
         ctx.fail(sig, what, {"case": case, "observed": what})
@@ -1028,6 +1114,12 @@ def oracle(ctx, d):
                     k=[0, 0] if i % 5 == 0 else [rng.randint(-n - 1, n + 1) for n in shape])
         ctx.count(("gp-warp", case["mode"], tuple(shape), tuple(case["k"])), nontrivial=int(np.prod(shape)) > 1)
         report(ctx, check_gp_case(ctx, d, case), case)
+    for i in range(ctx.pick(6, 40)):
+        case = dict(fit=True, pre=True, src=[[rng.uniform(-10, 10), rng.uniform(-10, 10)] for _ in range(rng.randint(4, 7))],
+                    t=[rng.uniform(-20, 20), rng.uniform(-20, 20)], sigma=math.exp(rng.uniform(math.log(0.5), math.log(2.0))),
+                    angle=rng.uniform(-0.5, 0.5))
+        ctx.count(("fit-exact", i))
+        report(ctx, check_fit_case(ctx, d, case), case)
     iso_lines, iso_vals = [], []
     for i in range(ctx.pick(8, 60)):
         shape = [rng.randint(3, 6), rng.randint(3, 6)]
@@ -1074,7 +1166,9 @@ def replay(data):
     if case is None:
         print(json.dumps(data, indent=1))
         return 0
-    if "rotations" in case:
+    if case.get("fit"):
+        bad = check_fit_case(_C(), d, case)
+    elif "rotations" in case:
         bad = check_rotcorr_case(_C(), d, case)
     elif str(case.get("kind", "")).startswith("gp-"):
         bad = check_gp_case(_C(), d, case)
@@ -1098,7 +1192,7 @@ def run(ctx):
         data = json.loads(f.read_text())
         case = data.get("replay", {}).get("case", data.get("case"))
         if case:
-            fn = (check_rotcorr_case if "rotations" in case else check_gp_case if str(case.get("kind", "")).startswith("gp-")
+            fn = (check_fit_case if case.get("fit") else check_rotcorr_case if "rotations" in case else check_gp_case if str(case.get("kind", "")).startswith("gp-")
                   else check_warp_case if "kind" in case else check_affine_case)
             report(ctx, fn(ctx, d, case), case)
     # (1) G1: rounding of the point constructors
@@ -1120,6 +1214,7 @@ def run(ctx):
     corr_warps(ctx, d, rnd_name)
     corr_genperspective(ctx, d)
     corr_ctmeta(ctx, d)
+    corr_fit_fold(ctx, d)
     # (4) oracle
     oracle(ctx, d)
 
